@@ -249,7 +249,9 @@ func (mv *MessageView) BodyReader(opts ...Option) (io.ReadCloser, error) {
 	br := bytes.NewReader(mv.message)
 	r = io.NewSectionReader(br, mv.bodyoffset, mv.traileroffset-mv.bodyoffset)
 
-	if !conf.decode {
+	if !conf.decode || mv.traileroffset == mv.bodyoffset {
+		// Nothing to decode, including the case where the body was skipped: a decoder would
+		// fail on the missing chunk terminator or compression header.
 		return ioutil.NopCloser(r), nil
 	}
 
